@@ -633,6 +633,10 @@ static void
 plumb(int fun, int srcchunk, int snkchunk, unsigned scode, size_t sl, unsigned kcode, size_t kl, size_t N, size_t L,
       size_t auxsize, size_t auxused, int sink_full)
 {
+    /* auxused may carry the number of octets that were consumed already in its upper half (counted and draining
+     * plumbing only: those rewind the buffer first, which is where its room comes from then) */
+    const size_t auxoff = auxused >> 8;
+    auxused &= 0xff;
     struct drv sd, kd;
     drv_init(&sd, 0, srcchunk, 0, 0, L);
     drv_init(&kd, 1, snkchunk, 0, 0, 1000);
@@ -665,7 +669,7 @@ plumb(int fun, int srcchunk, int snkchunk, unsigned scode, size_t sl, unsigned k
         auxmem = vh_arena(auxsize);
         for (size_t i = 0; i < auxsize; i++)
             auxmem[i] = (unsigned char)(0xD0 + i);
-        byte_buffer_set(&aux, auxmem, auxsize, auxused, 0);
+        byte_buffer_set(&aux, auxmem, auxsize, auxused, auxoff);
     }
     ssize_t rc;
     switch (fun) {
@@ -695,7 +699,16 @@ plumb(int fun, int srcchunk, int snkchunk, unsigned scode, size_t sl, unsigned k
     }
     if (kd.pos > sd.pos)
         vh_fail("sink-more-than-source", key, "%s: sink %zu source %zu", ctx, kd.pos, sd.pos);
-    if (fun >= F_SOME_AUX) {
+    if (fun >= F_SOME_AUX && auxoff) {
+        /* the unread octets are still there, in order (the functions may have moved them to the front) */
+        int same = aux.data == auxmem && aux.size == auxsize && aux.offset <= aux.used && aux.used <= auxsize
+                   && aux.used - aux.offset == auxused - auxoff;
+        for (size_t i = 0; same && i < auxused - auxoff; i++)
+            same = auxmem[aux.offset + i] == (unsigned char)(0xD0 + auxoff + i);
+        if (!same)
+            vh_fail("aux-content", key, "%s (%zu octets consumed): the unread octets of the auxiliary buffer changed: offset=%zu used=%zu memory %s", ctx,
+                    auxoff, aux.offset, aux.used, vh_hex(auxmem, auxsize));
+    } else if (fun >= F_SOME_AUX) {
         if (aux.data != auxmem || aux.size != auxsize || aux.used != auxused || aux.offset != 0)
             vh_fail("aux-marks", key, "%s: aux buffer now offset=%zu used=%zu size=%zu", ctx, aux.offset, aux.used,
                     aux.size);
@@ -798,9 +811,17 @@ u_plumb(uint64_t idx, void *arg)
                              * the plumbing may use is what is free behind them) */
                             static const size_t auxcfg[][2] = { { 1, 0 }, { 2, 0 }, { 3, 0 }, { 4, 0 }, { 4, 2 }, { 5, 3 },
                                                                 { 8, 4 }, { 8, 5 }, { 6, 1 }, { 7, 6 } };
-                            size_t naux = fun >= F_SOME_AUX ? sizeof auxcfg / sizeof auxcfg[0] : 1;
+                            /* buffers that were partly or wholly consumed before, some of them full to the brim */
+                            static const size_t auxcons[][3] = { { 4, 4, 2 }, { 3, 3, 3 }, { 5, 5, 1 }, { 4, 3, 1 }, { 2, 2, 1 }, { 6, 4, 4 } };
+                            size_t nplain = sizeof auxcfg / sizeof auxcfg[0];
+                            size_t naux = fun >= F_SOME_AUX ? nplain : 1;
+                            if (fun == F_N_AUX || fun == F_DRAIN_AUX)
+                                naux += sizeof auxcons / sizeof auxcons[0];
                             for (size_t a = 0; a < naux; a++) {
-                                size_t asz = auxcfg[a][0], aused = auxcfg[a][1];
+                                size_t asz = a < nplain ? auxcfg[a][0] : auxcons[a - nplain][0];
+                                size_t aused = a < nplain ? auxcfg[a][1] : (auxcons[a - nplain][1] | auxcons[a - nplain][2] << 8);
+                                if (a >= nplain)
+                                    VH_COUNT("auxiliary buffer with consumed octets in front");
                                 if (aused)
                                     VH_COUNT("auxiliary buffer that already holds octets");
                                 VH_CASE4(fun, styles, ((uint64_t)sl << 24) | ((uint64_t)sc << 12) | kc,
